@@ -44,6 +44,7 @@ Ltac eqbs := repeat first
   | progress cbn [feqb andb]
   | rewrite andb_false_r | rewrite andb_true_r ].
 Ltac rdeval := rdrw; eqbs.
+Ltac fin := rdeval; cbn [getf kty kst kln knx kpv kch ktl kmt]; try reflexivity.
 
 Ltac vld := unfold valid, fresh, Nlen in *;
   repeat match goal with L : length _ = _ |- _ => rewrite L in * end;
@@ -535,7 +536,6 @@ Proof.
   { intro Z. destruct (Vnr Z) as [V _]. split; [apply valid_neq_fresh; exact V|unfold a2, fresh; destruct V; lia]. }
   assert (Ntnr : t <> nr).
   { destruct (N.eq_dec nr 0) as [Z|Z]; [rewrite Z; destruct Vt; assumption|]. destruct (Vnr Z) as [_ ?]. apply not_eq_sym. assumption. }
-  Ltac fin := rdeval; cbn [getf kty kst kln knx kpv kch ktl kmt]; try reflexivity.
   split.
   { apply seg_app. cbn [hd]. split.
     - eapply seg_frame; [| |exact Sl]; [intros y _ Vy; apply VV, Vy|].
@@ -741,12 +741,15 @@ Proof.
   intros j g F. rdrw. rewrite if_not by exact F. reflexivity.
 Qed.
 
+End Split.
+
 (* a range that is not inside the token leaves everything as it is *)
-Theorem split_outside :
-  start < ts \/ ts + tlen < start + len -> start + len < W -> token_split h t start len ntype = Some h.
+Theorem split_outside h t ts tlen start len ntype :
+  rd h t Fst = Some ts -> rd h t Fln = Some tlen -> ts + tlen < W -> start + len < W ->
+  start < ts \/ ts + tlen < start + len -> token_split h t start len ntype = Some h.
 Proof.
-  intros B NW.
-  destruct split_pieces as (Sl & Vt & _).
+  intros Hst Hln NW1 NW2 B.
+  pose proof (rd_some_valid _ _ _ _ Hst) as Vt.
   unfold token_split.
   destruct (N.eqb_spec t 0) as [Z|_]; [destruct Vt; contradiction|].
   rewrite Hst, Hln. cbn [obind].
@@ -757,5 +760,230 @@ Proof.
   destruct (N.ltb_spec (ts + tlen) (start + len)) as [Y|Y]; [reflexivity|]. lia.
 Qed.
 
+(* ---- token_new_parent(child, type): a new token above a chain; its span runs from the start of the
+   first child to the end of the last one *)
 
-End Split.
+Theorem new_parent_spec h p0 x r ptype sx :
+  seg h p0 (x :: r) 0 -> NoDup (x :: r) -> rd h x Fst = Some sx ->
+  exists h' el ll, token_new_parent h x ptype = Some (h', fresh h) /\ length h' = S (length h) /\
+    rd h (List.last r x) Fst = Some el /\ rd h (List.last r x) Fln = Some ll /\
+    seg h' 0 (x :: r) 0 /\
+    rd h' (fresh h) Fch = Some x /\ rd h' (fresh h) Fty = Some ptype /\ rd h' (fresh h) Fst = Some sx /\
+    rd h' (fresh h) Fln = Some (match r with [] => ll | _ => wsub (wadd el ll) sx end) /\
+    rd h' (fresh h) Fnx = Some 0 /\ rd h' (fresh h) Fpv = Some 0 /\ rd h' (fresh h) Ftl = Some (fresh h) /\ rd h' (fresh h) Fmt = Some 0 /\
+    (forall j g, j <> fresh h -> ~ (j = x /\ g = Fpv) -> rd h' j g = rd h j g).
+Proof.
+  intros HS ND Hsx.
+  set (t := fresh h).
+  assert (Vx : valid h x) by (cbn [seg] in HS; tauto).
+  assert (Ve : valid h (List.last r x)) by (eapply seg_valid; [exact HS|apply last_in_cons]).
+  destruct (rd_valid h _ Fst Ve) as [el Eel]. destruct (rd_valid h _ Fln Ve) as [ll Ell].
+  assert (Nxt : x <> t) by (apply valid_neq_fresh; exact Vx).
+  unfold token_new_parent.
+  destruct (N.eqb_spec x 0) as [Z|_]; [destruct Vx; contradiction|].
+  rewrite Hsx. cbn [obind].
+  unfold token_new. fold t.
+  pose proof (rd_alloc h (mktk ptype sx 0 0 0 0 t 0)) as R0. fold t in R0.
+  assert (L0 : length (h ++ [mktk ptype sx 0 0 0 0 t 0]) = S (length h)) by (rewrite app_length; cbn; lia).
+  set (h0 := h ++ [mktk ptype sx 0 0 0 0 t 0]) in *.
+  assert (Vt : valid h0 t) by (unfold t; vld).
+  wr_step h1 L1 R1; [exact Vt|].
+  wr_step h2 L2 R2; [vld|].
+  assert (VV : forall y, valid h y -> valid h2 y) by (intros y Vy; vld).
+  assert (S2 : seg h2 0 (x :: r) 0).
+  { eapply seg_change_pv; [exact HS| | | |].
+    - intros y _ Vy. apply VV, Vy.
+    - fin.
+    - fin.
+    - intros y Hy. pose proof (seg_valid _ _ _ _ _ HS (or_intror Hy)) as Vy.
+      assert (y <> t) by (apply valid_neq_fresh; exact Vy).
+      assert (y <> x) by (intro X; rewrite X in Hy; inversion ND; contradiction).
+      split; fin. }
+  assert (Nx : rd h2 x Fnx = Some (hd 0 r)) by (cbn [seg] in S2; tauto).
+  rewrite Nx. cbn [obind].
+  assert (FR : forall h3, (forall j g, rd h3 j g = if (j =? t) && feqb g Fln then Some (match r with [] => ll | _ => wsub (wadd el ll) sx end) else rd h2 j g) ->
+               length h3 = length h2 ->
+    length h3 = S (length h) /\
+    rd h (List.last r x) Fst = Some el /\ rd h (List.last r x) Fln = Some ll /\
+    seg h3 0 (x :: r) 0 /\
+    rd h3 t Fch = Some x /\ rd h3 t Fty = Some ptype /\ rd h3 t Fst = Some sx /\
+    rd h3 t Fln = Some (match r with [] => ll | _ => wsub (wadd el ll) sx end) /\
+    rd h3 t Fnx = Some 0 /\ rd h3 t Fpv = Some 0 /\ rd h3 t Ftl = Some t /\ rd h3 t Fmt = Some 0 /\
+    (forall j g, j <> t -> ~ (j = x /\ g = Fpv) -> rd h3 j g = rd h j g)).
+  { intros h3 R3 L3.
+    split; [vld|]. split; [exact Eel|]. split; [exact Ell|].
+    split.
+    { eapply seg_frame; [| |exact S2]; [intros z _ Vz; vld|].
+      intros z Hz. pose proof (seg_valid _ _ _ _ _ HS Hz) as Vz.
+      assert (z <> t) by (apply valid_neq_fresh; exact Vz). split; fin. }
+    split; [fin|]. split; [fin|]. split; [fin|]. split; [fin|].
+    split; [fin|]. split; [fin|]. split; [fin|]. split; [fin|].
+    intros j g H1 H2. rdrw. rewrite (if_not j x g Fpv) by exact H2. eqbs. reflexivity. }
+  destruct r as [|y r'].
+  - cbn [hd N.eqb]. cbn [List.last] in *.
+    replace (rd h2 x Fln) with (Some ll) by (fin; symmetry; exact Ell). cbn [obind].
+    wr_step h3 L3 R3; [vld|].
+    exists h3, el, ll. split; [reflexivity|]. apply FR; assumption.
+  - cbn [hd].
+    assert (Vy : valid h y) by (cbn [seg] in HS; tauto).
+    destruct (N.eqb_spec y 0) as [Z|_]; [destruct Vy; contradiction|].
+    assert (W1 : last_of h2 x = Some (List.last (y :: r') x)).
+    { unfold last_of. apply (walk_next h2 (fuel_of h2) 0 [] x (y :: r') 0); [exact S2|reflexivity|].
+      unfold fuel_of. pose proof (seg_length _ _ _ _ ND HS). cbn [length] in *. vld. }
+    rewrite W1. cbn [obind].
+    set (e := List.last (y :: r') x) in *.
+    assert (Net : e <> t) by (apply valid_neq_fresh; exact Ve).
+    replace (rd h2 e Fst) with (Some el).
+    2:{ rdrw. destruct (N.eqb_spec e x) as [X|X]; cbn [andb feqb]; eqbs; symmetry; exact Eel. }
+    replace (rd h2 e Fln) with (Some ll).
+    2:{ rdrw. destruct (N.eqb_spec e x) as [X|X]; cbn [andb feqb]; eqbs; symmetry; exact Ell. }
+    replace (rd h2 t Fst) with (Some sx) by fin. cbn [obind].
+    wr_step h3 L3 R3; [vld|].
+    exists h3, el, ll. split; [reflexivity|]. apply FR; assumption.
+Qed.
+
+(* ---- tokens_prune(first, last): a run of tokens is taken out of the middle or the end of a chain *)
+
+Theorem prune_spec h a pvt x rr b :
+  let e := List.last rr x in
+  seg h 0 (a ++ pvt :: (x :: rr) ++ b) 0 -> NoDup (a ++ pvt :: (x :: rr) ++ b) ->
+  rd h (hd pvt a) Ftl = Some (List.last b e) ->
+  exists h', tokens_prune h x e = Some h' /\ length h' = length h /\
+    seg h' 0 (a ++ pvt :: b) 0 /\ rd h' (hd pvt a) Ftl = Some (List.last b pvt) /\
+    seg h' 0 (x :: rr) 0 /\
+    (forall j g, j <> pvt -> j <> hd 0 b -> j <> x -> j <> e -> j <> hd pvt a -> rd h' j g = rd h j g).
+Proof.
+  intros e HS ND Htl.
+  set (nb := hd 0 b).
+  (* pieces *)
+  pose proof HS as S0. apply seg_app in S0. cbn [hd] in S0. destruct S0 as [Sa S1].
+  cbn [seg] in S1. destruct S1 as (Vp & Pp & Np & S2). change (hd 0 ((x :: rr) ++ b)) with x in Np.
+  apply seg_app in S2. destruct S2 as [Sx Sb]. fold nb in Sx.
+  replace (List.last (x :: rr) pvt) with e in Sb by (unfold e; symmetry; apply last_cons).
+  assert (Vx : valid h x) by (cbn [seg] in Sx; tauto).
+  assert (Px : rd h x Fpv = Some pvt) by (cbn [seg] in Sx; tauto).
+  assert (Ve : valid h e) by (eapply seg_valid; [exact Sx|apply last_in_cons]).
+  assert (Ne : rd h e Fnx = Some nb).
+  { destruct (exists_last (l := x :: rr)) as (l' & e' & El); [discriminate|].
+    assert (e' = e) by (unfold e; rewrite <- (last_cons rr x 0), El, last_last; reflexivity). subst e'.
+    rewrite El in Sx. apply seg_app in Sx. destruct Sx as [_ Sx]. cbn [seg hd] in Sx. tauto. }
+  (* distinctness *)
+  apply nodup_app in ND. destruct ND as (NDa & ND1 & Da).
+  apply NoDup_cons_iff in ND1. destruct ND1 as [Pn ND2].
+  apply nodup_app in ND2. destruct ND2 as (NDx & NDb & Dx).
+  assert (Npx : pvt <> x) by (intro X; apply Pn; apply in_or_app; left; left; symmetry; exact X).
+  assert (Npe : pvt <> e) by (intro X; apply Pn; apply in_or_app; left; rewrite X; apply last_in_cons).
+  assert (Nb_cases : nb = 0 \/ In nb b) by (unfold nb; destruct b; [left; reflexivity|right; left; reflexivity]).
+  assert (Vnb : nb <> 0 -> valid h nb) by (intro Z; destruct Nb_cases as [|I]; [contradiction|eapply seg_valid; [exact Sb|exact I]]).
+  assert (Npnb : pvt <> nb).
+  { intro X. destruct Nb_cases as [Z|I]; [destruct Vp; congruence|]. apply Pn. apply in_or_app. right. rewrite X. exact I. }
+  assert (Nxnb : x <> nb).
+  { intro X. destruct Nb_cases as [Z|I]; [destruct Vx; congruence|]. apply (Dx x (or_introl eq_refl)). rewrite X. exact I. }
+  assert (Nenb : e <> nb).
+  { intro X. destruct Nb_cases as [Z|I]; [destruct Ve; congruence|]. apply (Dx e (last_in_cons rr x)). rewrite X. exact I. }
+  assert (Ha : forall y, In y a -> y <> pvt /\ y <> x /\ y <> e /\ y <> nb).
+  { intros y Hy. pose proof (Da y Hy) as Q. cbn [In] in Q. rewrite in_app_iff in Q.
+    split; [intro X; apply Q; left; symmetry; exact X|].
+    split; [intro X; apply Q; right; left; left; symmetry; exact X|].
+    split; [intro X; apply Q; right; left; rewrite X; apply last_in_cons|].
+    intro X. destruct Nb_cases as [Z|I]; [destruct (seg_valid _ _ _ _ _ Sa Hy); congruence|]. apply Q. right. right. rewrite X. exact I. }
+  unfold tokens_prune.
+  destruct (N.eqb_spec x 0) as [Z|_]; [destruct Vx; contradiction|].
+  destruct (N.eqb_spec e 0) as [Z|_]; [destruct Ve; contradiction|]. cbn [orb].
+  rewrite Px, Ne. cbn [obind].
+  destruct (N.eqb_spec pvt 0) as [Z|_]; [destruct Vp; contradiction|].
+  wr_step h1 L1 R1; [exact Vp|].
+  (* the chain a ++ [pvt] in h1, with pvt now pointing at nb *)
+  assert (Sa1 : seg h1 0 (a ++ [pvt]) nb).
+  { apply seg_app. cbn [hd]. split.
+    - eapply seg_frame; [| |exact Sa]; [intros y _ Vy; vld|].
+      intros y Hy. destruct (Ha y Hy) as (? & ? & ? & ?). split; fin.
+    - cbn [seg]. split; [vld|]. split; [fin; exact Pp|]. split; [fin|exact I]. }
+  assert (Vhd : valid h (hd pvt a)).
+  { destruct a as [|y a']; cbn [hd]; [exact Vp|]. cbn [seg] in Sa. tauto. }
+  assert (FT : exists h2, (if nb =? 0 then fix_token_chain_tail h1 pvt else Some h1) = Some h2 /\ length h2 = length h1 /\
+                 forall j g, rd h2 j g = if (nb =? 0) && ((j =? hd pvt a) && feqb g Ftl) then Some pvt else rd h1 j g).
+  { destruct (N.eqb_spec nb 0) as [Z|Z]; cbn [andb].
+    - unfold fix_token_chain_tail.
+      destruct (N.eqb_spec pvt 0) as [Z'|_]; [destruct Vp; contradiction|].
+      assert (W1 : head_of h1 pvt = Some (hd pvt a)).
+      { unfold head_of. apply (walk_prev h1 (fuel_of h1) a pvt [] nb); [exact Sa1|].
+        unfold fuel_of. pose proof (seg_length _ _ _ _ NDa Sa). vld. }
+      assert (W2 : last_of h1 pvt = Some pvt).
+      { unfold last_of. rewrite Z in Sa1. apply (walk_next h1 (fuel_of h1) 0 a pvt [] 0); [exact Sa1|reflexivity|]. unfold fuel_of. cbn. lia. }
+      rewrite W1, W2. cbn [obind].
+      destruct (wr_ok h1 (hd pvt a) Ftl pvt) as (h2 & E & L2 & R2); [vld|].
+      exists h2. split; [exact E|]. split; [exact L2|]. exact R2.
+    - exists h1. repeat split; reflexivity. }
+  destruct FT as (h2 & E2 & L2 & R2). rewrite E2. cbn [obind]. clear E2.
+  destruct (opt_wr (nb =? 0) h2 nb Fpv pvt) as (h3 & E3 & L3 & R3).
+  { intro Z. apply N.eqb_neq in Z. specialize (Vnb Z). vld. }
+  rewrite E3. cbn [obind]. clear E3.
+  wr_step h4 L4 R4; [vld|].
+  wr_step h5 L5 R5; [vld|].
+  exists h5. split; [reflexivity|]. split; [vld|].
+  assert (VV : forall y, valid h y -> valid h5 y) by (intros y Vy; vld).
+  assert (Nxp : x <> pvt) by (apply not_eq_sym; exact Npx).
+  assert (Nep : e <> pvt) by (apply not_eq_sym; exact Npe).
+  split.
+  { (* the remaining chain *)
+    apply seg_app. cbn [hd]. split.
+    - eapply seg_frame; [| |exact Sa]; [intros y _ Vy; apply VV, Vy|].
+      intros y Hy. destruct (Ha y Hy) as (? & ? & ? & ?). split; fin.
+    - cbn [seg]. split; [apply VV, Vp|]. split; [fin; exact Pp|]. split; [fin|].
+      destruct b as [|y b']; [exact I|].
+      assert (Z : (nb =? 0) = false).
+      { apply N.eqb_neq. unfold nb. cbn [hd]. destruct (seg_valid _ _ _ _ _ Sb (or_introl eq_refl)); assumption. }
+      eapply seg_change_pv; [exact Sb| | | |].
+      + intros z _ Vz. apply VV, Vz.
+      + change y with nb. rdrw. rewrite Z. eqbs. reflexivity.
+      + change y with nb. assert (nb <> e) by (apply not_eq_sym; exact Nenb). assert (nb <> pvt) by (apply not_eq_sym; exact Npnb). fin.
+      + intros z Hz.
+        assert (z <> pvt) by (intro X; apply Pn; apply in_or_app; right; rewrite <- X; right; exact Hz).
+        assert (z <> x) by (intro X; apply (Dx x (or_introl eq_refl)); rewrite <- X; right; exact Hz).
+        assert (z <> e) by (intro X; apply (Dx e (last_in_cons rr x)); rewrite <- X; right; exact Hz).
+        assert (z <> nb) by (unfold nb; cbn [hd]; intro X; rewrite X in Hz; inversion NDb; contradiction).
+        split; fin. }
+  split.
+  { (* tail at the head *)
+    assert (hd pvt a <> x).
+    { destruct a as [|y a']; cbn [hd]; [exact Npx|]. destruct (Ha y (or_introl eq_refl)) as (_ & ? & _). assumption. }
+    assert (hd pvt a <> e).
+    { destruct a as [|y a']; cbn [hd]; [exact Npe|]. destruct (Ha y (or_introl eq_refl)) as (_ & _ & ? & _). assumption. }
+    destruct b as [|y b'].
+    - assert (Z : (nb =? 0) = true) by reflexivity. rdrw. rewrite Z. cbn [negb andb]. eqbs. reflexivity.
+    - assert (Z : (nb =? 0) = false).
+      { apply N.eqb_neq. unfold nb. cbn [hd]. destruct (seg_valid _ _ _ _ _ Sb (or_introl eq_refl)); assumption. }
+      rdrw. rewrite Z. cbn [negb andb]. eqbs. rewrite Htl. f_equal. apply last_nonempty_default. discriminate. }
+  split.
+  { (* the pruned run is a chain of its own *)
+    destruct (exists_last (l := x :: rr)) as (l' & e' & El); [discriminate|].
+    assert (e' = e) by (unfold e; rewrite <- (last_cons rr x 0), El, last_last; reflexivity). subst e'.
+    destruct l' as [|x' l''].
+    - (* one token: x = e *)
+      cbn [app] in El. injection El as Ex Er. rewrite Er. cbn [seg]. split; [apply VV, Vx|].
+      split; [fin|]. split; [|exact I]. cbn [hd]. rewrite Ex. fin.
+    - cbn [app] in El. injection El as Ex Er. subst x'. rewrite Er.
+      rewrite Er in Sx. change (x :: l'' ++ [e]) with ((x :: l'') ++ [e]) in Sx |- *.
+      apply seg_app in Sx. destruct Sx as [Sl Se]. cbn [hd] in Sl.
+      assert (NDl : NoDup ((x :: l'') ++ [e])) by (change ((x :: l'') ++ [e]) with (x :: l'' ++ [e]); rewrite <- Er; exact NDx).
+      apply nodup_app in NDl. destruct NDl as (NDl1 & _ & Dl).
+      apply seg_app. cbn [hd]. split.
+      + eapply seg_change_pv; [exact Sl| | | |].
+        * intros z _ Vz. apply VV, Vz.
+        * fin.
+        * assert (x <> e) by (intro X; apply (Dl x (or_introl eq_refl)); rewrite X; left; reflexivity). fin.
+        * intros z Hz.
+          assert (In z (x :: rr)) by (rewrite Er; right; apply in_or_app; left; exact Hz).
+          assert (z <> pvt) by (intro X; apply Pn; apply in_or_app; left; rewrite <- X; assumption).
+          assert (z <> x) by (intro X; rewrite X in Hz; inversion NDl1; contradiction).
+          assert (z <> e) by (intro X; apply (Dl z (or_intror Hz)); rewrite X; left; reflexivity).
+          assert (z <> nb).
+          { intro X. destruct Nb_cases as [Z|I']; [destruct (seg_valid _ _ _ _ _ Sl (or_intror Hz)); congruence|].
+            apply (Dx z); [assumption|rewrite X; exact I']. }
+          split; fin.
+      + cbn [seg] in Se |- *. destruct Se as (_ & Pe & _). split; [apply VV, Ve|].
+        assert (e <> x) by (intro X; apply (Dl x (or_introl eq_refl)); rewrite <- X; left; reflexivity).
+        split; [fin; rewrite Pe; f_equal; apply last_cons_default|]. split; [fin|exact I]. }
+  intros j g H1 H2 H3 H4 H5. fold nb in H2. fin.
+Qed.
